@@ -2,11 +2,32 @@
 of DecoratedNode.to_list (incl. the "sqaure" spelling), the label renaming of fit_from_string / string_to_aifeyn, and the
 selection skeleton of string_to_node: the parse variants in index order (kern / evaluate flags, which of them sits behind
 `if allow_eval:`), the rule chain and the `sympy_numerics` list of check_operators, the defaults of string_to_node and the
-effective arguments of its call sites in fit_single.py."""
+effective arguments of its call sites in fit_single.py.
+
+How the source is read (extractors/_norm_c18.py has the details and the soundness argument of every step).  Each function
+is executed SYMBOLICALLY into a normal form — locals, `self.<attr>` and list items replaced by what was assigned to them,
+conditionals turned into decision trees / conditional expressions — and the normal form is matched against the shape the
+hand-written Lean model has for it; the metavariables of the pattern bind the literals of the table.  A statement,
+expression, call or target outside the fragment, or a normal form that does not match, is an ExtractError (fail closed).
+Consequently the same table comes out for sources that differ by
+  * renamed locals / loop variables, hoisted temporaries and named constants, tuple and chained assignment, tuple
+    unpacking of `as_two_terms()` / `string_to_node()` / `check_tree()` vs indexing;
+  * an attribute read back instead of the expression it was assigned (`self.degree` for `len(fun.args)`);
+  * `x = a if c else b` vs if/else, early return vs result variable, `else` after `return` dropped or added,
+    `return None` vs `pass` vs falling off the end, guard inversion;
+  * double negation, De Morgan, `not a == b` vs `a != b` (also is / in), nested and/or of the same operator;
+  * `str(2)` vs `"2"`, tuple vs list display after `in`;
+  * `range(len(L))` vs `enumerate(L)` item loops, comprehension vs loop with append / `+=` / `r = r + …`;
+  * one level of inlining of a private helper (`self._name`, `@staticmethod`, module-level `_name`, nested def);
+  * the four `try` blocks of string_to_node written with literal indices instead of `i = <k>`, or folded into one loop
+    over a literal tuple of (kern, evaluate) pairs (unrolled), `if i == 0 and not allow_eval: continue` included;
+  * `'a' + str(k)`, `'a%d' % k`, `'a{}'.format(k)` for `f'a{k}'` (k is an `enumerate` index: an int).
+"""
 import ast
 from fractions import Fraction
 import extract
 from extract import ExtractError, lstr, llist
+from extractors import _norm_c18 as nx
 
 GEN = "esr/generation/generator.py"
 FIT = "esr/fitting/fit_single.py"
@@ -24,21 +45,6 @@ extract.MODELLED += [
     (FIT, None, "string_to_aifeyn"),
     (GEN, None, "check_operators"),
 ]
-
-
-def _chain(node):
-    """[(test, body, lineno)] of an if/elif chain and the final else body"""
-    out = []
-    while True:
-        out.append((node.test, node.body, node.lineno))
-        if len(node.orelse) == 1 and isinstance(node.orelse[0], ast.If):
-            node = node.orelse[0]
-        else:
-            return out, node.orelse
-
-
-def _conj(test):
-    return list(test.values) if isinstance(test, ast.BoolOp) and isinstance(test.op, ast.And) else [test]
 
 
 def _const_value(node):
@@ -63,225 +69,346 @@ def _const_value(node):
     raise ExtractError("__init__: constant %r not a number" % (v,))
 
 
-def _basis_names(node):
-    """`'s' in basis_functions[1]` or a parenthesised `or` of such -> [s, ...]"""
-    parts = list(node.values) if isinstance(node, ast.BoolOp) and isinstance(node.op, ast.Or) else [node]
-    out = []
-    for p in parts:
-        if (isinstance(p, ast.Compare) and len(p.ops) == 1 and isinstance(p.ops[0], ast.In)
-                and isinstance(p.left, ast.Constant) and isinstance(p.left.value, str)
-                and ast.unparse(p.comparators[0]) == "basis_functions[1]"):
-            out.append(p.left.value)
+def _conj(test):
+    return list(test.values) if isinstance(test, ast.BoolOp) and isinstance(test.op, ast.And) else [test]
+
+
+def _disj(test):
+    return list(test.values) if isinstance(test, ast.BoolOp) and isinstance(test.op, ast.Or) else [test]
+
+
+def _lineno(node, default=0):
+    for n in ast.walk(node):
+        ln = getattr(n, "lineno", None)
+        if ln:
+            return ln
+    return default
+
+
+def _class_def(tree, cls):
+    for n in tree.body:
+        if isinstance(n, ast.ClassDef) and n.name == cls:
+            return n
+    raise ExtractError("class %s not found" % cls)
+
+
+def _helpers(tree, cls, fn):
+    """N8: the private helpers a function of class `cls` may call: methods `self._name`, module-level `_name`, nested defs"""
+    h = {}
+    for n in tree.body:
+        if isinstance(n, ast.FunctionDef) and n.name.startswith("_") and not n.name.startswith("__"):
+            h[n.name] = n
+    if cls is not None:
+        for n in _class_def(tree, cls).body:
+            if isinstance(n, ast.FunctionDef) and n.name.startswith("_") and not n.name.startswith("__") and n is not fn:
+                if any(ast.unparse(d) == "staticmethod" for d in n.decorator_list):
+                    m = nx.cp(n)
+                    m.decorator_list = []
+                    m.args.args = [ast.arg(arg="self")] + m.args.args
+                    h["self." + n.name] = m
+                else:
+                    h["self." + n.name] = n
+    body = []
+    for st in fn.body:
+        if isinstance(st, ast.FunctionDef):
+            free = {x.id for x in ast.walk(st) if isinstance(x, ast.Name)} - {a.arg for a in st.args.args}
+            assigned = {x.id for x in ast.walk(fn) if isinstance(x, ast.Name) and isinstance(x.ctx, ast.Store)}
+            if free & assigned:
+                raise ExtractError("%s: nested helper `%s` reads locals of the enclosing function" % (fn.name, st.name))
+            h[st.name] = st
         else:
-            return None
-    return out
+            body.append(st)
+    return h, body
 
 
-def _child_args(body, lineno):
-    """`self.op = 'X'` and `self.children = [DecoratedNode(<arg>, basis_functions, parent_op=self.op, parent=self), …]`"""
-    if len(body) != 2:
-        raise ExtractError("__init__ branch at line %d: expected two statements" % lineno)
-    a, c = body
-    if not (isinstance(a, ast.Assign) and ast.unparse(a.targets[0]) == "self.op" and isinstance(a.value, ast.Constant)
-            and isinstance(a.value.value, str)):
-        raise ExtractError("__init__ branch at line %d: no `self.op = '<name>'`" % lineno)
-    if not (isinstance(c, ast.Assign) and ast.unparse(c.targets[0]) == "self.children" and isinstance(c.value, ast.List)):
-        raise ExtractError("__init__ branch at line %d: no `self.children = [...]`" % lineno)
-    args = []
-    for e in c.value.elts:
-        if not (isinstance(e, ast.Call) and ast.unparse(e.func) == "DecoratedNode" and len(e.args) == 2
-                and ast.unparse(e.args[1]) == "basis_functions"
-                and sorted((k.arg, ast.unparse(k.value)) for k in e.keywords) == [("parent", "self"), ("parent_op", "self.op")]):
-            raise ExtractError("__init__ branch at line %d: unexpected child constructor %s" % (lineno, ast.unparse(e)))
-        args.append(ast.unparse(e.args[0]))
-    return a.value.value, args
+# --------------------------------------------------------------------------------------------------------------
+# DecoratedNode.__init__
+# --------------------------------------------------------------------------------------------------------------
+
+INIT_FIXED = {"self.type": "type(fun)", "self.constant": "fun.is_number", "self.degree": "len(fun.args)", "self.parent": "parent",
+              "self.val": "str(fun) if fun.is_number else fun.name if fun.is_symbol else None"}
+P_CLS = nx.E("fun.__class__.__name__ == S_cls")
+P_ARG1 = nx.E("fun.args[1] == C_const")
+P_BASIS1 = nx.E("S_b in basis_functions[1]")
+P_DIV = [nx.E("len(fun.args) == 2"), nx.E("fun.args[1].__class__.__name__ == S_argCls"), nx.E("fun.args[1].args[1] == C_const")]
+P_KID1 = nx.E("[DecoratedNode(fun.args[0], basis_functions, parent_op=S_op, parent=self)]")
+P_KID2 = nx.E("[DecoratedNode(fun.args[0], basis_functions, parent_op=S_op, parent=self), "
+              "DecoratedNode(fun.args[1].args[0], basis_functions, parent_op=S_op, parent=self)]")
+P_MANY = nx.E("len(fun.args) > 2")
+P_TWO = nx.E("[DecoratedNode(fun.as_two_terms()[0], basis_functions, parent_op=fun.__class__.__name__, parent=self), "
+             "DecoratedNode(fun.as_two_terms()[1], basis_functions, parent_op=fun.__class__.__name__, parent=self)]")
+P_EACH = nx.E("[DecoratedNode(V_a, basis_functions, parent_op=fun.__class__.__name__, parent=self) for V_a in fun.args]")
+
+
+def _init_state(stage):
+    """final symbolic state of `DecoratedNode(fun, …)` for `fun is not None`: cell -> expression"""
+    tree = extract._parse(stage, GEN)
+    fn = extract.find_def(tree, "__init__", "DecoratedNode")
+    fn = nx.rename_comprehension_vars(fn)
+    helpers, body = _helpers(tree, "DecoratedNode", fn)
+    body = [b for b in nx.strip_doc(body) if not isinstance(b, ast.Pass)]
+    not_none = nx.key(nx.E("fun is not None"))
+    is_none = nx.key(nx.E("fun is None"))
+    inner = None
+    if len(body) == 1 and isinstance(body[0], ast.If) and not body[0].orelse and nx.key(nx.norm(body[0].test, True)) == not_none:
+        inner = body[0].body
+    elif (body and isinstance(body[0], ast.If) and not body[0].orelse and nx.key(nx.norm(body[0].test, True)) == is_none
+          and len(body[0].body) == 1 and isinstance(body[0].body[0], ast.Return) and body[0].body[0].value is None):
+        inner = body[1:]
+    if inner is None:
+        raise ExtractError("DecoratedNode.__init__: `if fun is not None` not found")
+    where = "DecoratedNode.__init__"
+    out = nx.Exec(helpers, where).block(inner, {})
+    if not isinstance(out, nx.Fall):
+        raise ExtractError("DecoratedNode.__init__: returns a value / does not fall through")
+    nx.check_kept(out, where, observable=lambda k: k.startswith("self."))
+    return out.env
+
+
+def init_attrs(stage):
+    """attributes every DecoratedNode built from an expression has (reading them cannot raise)"""
+    return sorted(k[5:] for k, v in _init_state(stage).items() if k.startswith("self.") and v is not nx.UNDEF)
 
 
 def init_rules(stage):
-    fn = extract.find_def(extract._parse(stage, GEN), "__init__", "DecoratedNode")
-    outer = [n for n in fn.body if isinstance(n, ast.If)]
-    if len(outer) != 1 or ast.unparse(outer[0].test) != "fun is not None":
-        raise ExtractError("DecoratedNode.__init__: `if fun is not None` not found")
-    body = outer[0].body
-    pre = "\n".join(ast.unparse(n) for n in body[:-2])
-    for must in ("self.op = fun.__class__.__name__", "self.degree = len(fun.args)", "self.type = type(fun)", "self.constant = fun.is_number"):
-        if must not in pre:
-            raise ExtractError("DecoratedNode.__init__: `%s` not found" % must)
-    if ast.unparse(body[-2]).replace("\n", " ") != ("if self.constant:     self.val = str(fun) elif fun.is_symbol:     self.val = fun.name "
-                                                     "else:     self.val = None"):
-        raise ExtractError("DecoratedNode.__init__: the `self.val` assignment changed shape")
-    if not isinstance(body[-1], ast.If):
-        raise ExtractError("DecoratedNode.__init__: special-case chain not found")
-    chain, orelse = _chain(body[-1])
-    # `else: if len(fun.args) > 2:` is the general branch, not a special case
-    while chain and not ast.unparse(chain[-1][0]).startswith("self.op =="):
-        t_, b_, l_ = chain.pop()
-        node = ast.If(test=t_, body=b_, orelse=orelse)
-        orelse = [node]
+    env = _init_state(stage)
+    for k, want in INIT_FIXED.items():
+        if k not in env or nx.key(env[k]) != nx.key(nx.norm(nx.E(want))):
+            raise ExtractError("DecoratedNode.__init__: `%s` is %s, the model has `%s`" % (
+                k, "`%s`" % nx.src(env[k])[:120] if k in env else "not assigned", want))
+    if "self.op" not in env or "self.children" not in env:
+        raise ExtractError("DecoratedNode.__init__: self.op / self.children not assigned")
+    opch, op_else = nx.ifexp_chain(env["self.op"])
+    chch, ch_else = nx.ifexp_chain(env["self.children"])
+    if nx.key(op_else) != nx.key(nx.E("fun.__class__.__name__")):
+        raise ExtractError("DecoratedNode.__init__: `self.op` of the general branch is not fun.__class__.__name__")
+    if len(chch) != len(opch) + 1 or any(nx.key(a[0]) != nx.key(b[0]) for a, b in zip(opch, chch)):
+        raise ExtractError("DecoratedNode.__init__: the special-case chain changed shape (self.op and self.children are not set by the same tests)")
+    # the general branch
+    t_many, two = chch[-1]
+    if (nx.match(P_MANY, t_many) is None or nx.match(P_TWO, two) is None or nx.match(P_EACH, ch_else) is None):
+        raise ExtractError("DecoratedNode.__init__: the general branch (as_two_terms / one child per argument) changed shape")
     rules = []
-    for test, bd, ln in chain:
+    for (test, op), (_, kids) in zip(opch, chch):
+        ln = _lineno(test)
         cj = _conj(test)
-        if not (isinstance(cj[0], ast.Compare) and ast.unparse(cj[0].left) == "self.op" and isinstance(cj[0].ops[0], ast.Eq)
-                and isinstance(cj[0].comparators[0], ast.Constant)):
+        b = nx.match(P_CLS, cj[0])
+        if b is None:
             raise ExtractError("__init__ branch at line %d: first conjunct is not `self.op == '<cls>'`" % ln)
-        cls = cj[0].comparators[0].value
-        newop, args = _child_args(bd, ln)
+        cls = b["S_cls"]
+        if not (isinstance(op, ast.Constant) and isinstance(op.value, str)):
+            raise ExtractError("__init__ branch at line %d: no `self.op = '<name>'`" % ln)
+        newop = op.value
+        bk = nx.Bind()
+        bk["S_op"] = newop
+        bk["#S_op"] = repr(newop)
         rest = cj[1:]
-        if args == ["fun.args[0]"]:
-            if not (len(rest) in (1, 2) and isinstance(rest[0], ast.Compare) and ast.unparse(rest[0].left) == "fun.args[1]"
-                    and isinstance(rest[0].ops[0], ast.Eq)):
+        if nx.match(P_KID1, kids, nx.Bind(bk)) is not None:
+            b1 = nx.match(P_ARG1, rest[0]) if rest else None
+            if b1 is None or len(rest) > 2:
                 raise ExtractError("__init__ branch at line %d: expected `fun.args[1] == <const>`" % ln)
-            const = _const_value(rest[0].comparators[0])
+            const = _const_value(b1["C_const"])
             names = []
             if len(rest) == 2:
-                names = _basis_names(rest[1])
-                if names is None:
-                    raise ExtractError("__init__ branch at line %d: basis condition not understood" % ln)
+                for d in _disj(rest[1]):
+                    bb = nx.match(P_BASIS1, d)
+                    if bb is None:
+                        raise ExtractError("__init__ branch at line %d: basis condition not understood" % ln)
+                    names.append(bb["S_b"])
             rules.append((cls, False, "", const, names, newop, ln))
-        elif args == ["fun.args[0]", "fun.args[1].args[0]"]:
-            if not (len(rest) == 3 and ast.unparse(rest[0]) == "len(fun.args) == 2"
-                    and isinstance(rest[1], ast.Compare) and ast.unparse(rest[1].left) == "fun.args[1].__class__.__name__"
-                    and isinstance(rest[1].ops[0], ast.Eq) and isinstance(rest[1].comparators[0], ast.Constant)
-                    and isinstance(rest[2], ast.Compare) and ast.unparse(rest[2].left) == "fun.args[1].args[1]"
-                    and isinstance(rest[2].ops[0], ast.Eq)):
+        elif nx.match(P_KID2, kids, nx.Bind(bk)) is not None:
+            bd = nx.Bind()
+            if len(rest) != 3 or any(nx.match(p_, r_, bd) is None for p_, r_ in zip(P_DIV, rest)):
                 raise ExtractError("__init__ branch at line %d: quotient pattern not understood" % ln)
-            rules.append((cls, True, rest[1].comparators[0].value, _const_value(rest[2].comparators[0]), [], newop, ln))
+            rules.append((cls, True, bd["S_argCls"], _const_value(bd["C_const"]), [], newop, ln))
         else:
-            raise ExtractError("__init__ branch at line %d: children %r not modelled" % (ln, args))
-    want_else = ("if len(fun.args) > 2:     f = fun.as_two_terms()     self.children = [DecoratedNode(f[0], basis_functions, parent_op=self.op, parent=self), "
-                 "DecoratedNode(f[1], basis_functions, parent_op=self.op, parent=self)] else:     self.children = [DecoratedNode(a, basis_functions, "
-                 "parent_op=self.op, parent=self) for a in fun.args]")
-    got_else = " ".join(ast.unparse(n) for n in orelse).replace("\n", " ")
-    if got_else != want_else:
-        raise ExtractError("DecoratedNode.__init__: the general branch (as_two_terms / one child per argument) changed shape")
+            raise ExtractError("__init__ branch at line %d: children `%s` not modelled" % (ln, nx.src(kids)[:200]))
     return rules
 
 
-# field names of ESR.Gen.ToList.ToListLits, branch by branch: the string literals of test + body, in source order
-TOLIST_FIELDS = [
-    None,                                               # degree == 0
-    None,                                               # degree == 1
-    ["sqrtOp", "sqrtTyp", "sqrtBasisA", "sqrtBasisB", "sqrtTestA", "sqrtLabelA", "sqrtLabelB"],
-    ["squareOp", "squareExp", "squareBasis", "squareLabel"],
-    ["unsquareOp", "unsquareBasis", "unsquareLabel", "unsquareExp"],
-    ["cubeOp", "cubeExp", "cubeBasis", "cubeLabel"],
-    ["uncubeOp", "uncubeBasis", "uncubeLabel", "uncubeExp"],
-    ["invOp", "invTyp", "invBasis", "invLabel"],
-    ["mulInvOp", "mulInvKidOp", "mulInvTyp", "mulInvBasis", "mulInvLabel"],
-    ["divInvOp", "divInvKidOp", "divInvTyp", "divInvBasis", "divInvLabel"],
-    ["unitOp"],
-    ["absOp", "absParents"],
-    ["passOp"],
-    ["subOp", "subKidOp", "subNegA", "subNegB", "subNegC", "subLabelA", "subLabelB"],
+# --------------------------------------------------------------------------------------------------------------
+# DecoratedNode.to_list
+# --------------------------------------------------------------------------------------------------------------
+
+# field names of ESR.Gen.ToList.ToListLits, branch by branch, with the normal form of the branch: test and body as Python
+# patterns (metavariable S_<field> / T_<field> / LS_<field> binds the literal of that field)
+_K0 = "self.children[0].to_list(basis_functions)"
+_K1 = "self.children[1].to_list(basis_functions)"
+TOLIST_BRANCHES = [
+    (None, "self.degree == 0", "return [str(self.val)]"),
+    (None, "self.degree == 1", "return [self.op] + " + _K0),
+    (["sqrtOp", "sqrtTyp", "sqrtBasisA", "sqrtBasisB", "sqrtTestA", "sqrtLabelA", "sqrtLabelB"],
+     "self.op == S_sqrtOp and self.children[1].type == sympy.core.numbers.T_sqrtTyp and "
+     "(S_sqrtBasisA in basis_functions[1] or S_sqrtBasisB in basis_functions[1])",
+     "if S_sqrtTestA in basis_functions[1]:\n    return [S_sqrtLabelA] + %s\nelse:\n    return [S_sqrtLabelB] + %s" % (_K0, _K0)),
+    (["squareOp", "squareExp", "squareBasis", "squareLabel"],
+     "self.op == S_squareOp and self.children[1].val == S_squareExp and S_squareBasis in basis_functions[1]",
+     "return [S_squareLabel] + " + _K0),
+    (["unsquareOp", "unsquareBasis", "unsquareLabel", "unsquareExp"],
+     "self.op == S_unsquareOp and S_unsquareBasis not in basis_functions[1]",
+     "return [S_unsquareLabel] + %s + [S_unsquareExp]" % _K0),
+    (["cubeOp", "cubeExp", "cubeBasis", "cubeLabel"],
+     "self.op == S_cubeOp and self.children[1].val == S_cubeExp and S_cubeBasis in basis_functions[1]",
+     "return [S_cubeLabel] + " + _K0),
+    (["uncubeOp", "uncubeBasis", "uncubeLabel", "uncubeExp"],
+     "self.op == S_uncubeOp and S_uncubeBasis not in basis_functions[1]",
+     "return [S_uncubeLabel] + %s + [S_uncubeExp]" % _K0),
+    (["invOp", "invTyp", "invBasis", "invLabel"],
+     "self.op == S_invOp and self.children[1].type == sympy.core.numbers.T_invTyp and S_invBasis in basis_functions[1]",
+     "return [S_invLabel] + " + _K0),
+    (["mulInvOp", "mulInvKidOp", "mulInvTyp", "mulInvBasis", "mulInvLabel"],
+     "self.op == S_mulInvOp and self.children[0].op == S_mulInvKidOp and self.children[1].type == sympy.core.numbers.T_mulInvTyp "
+     "and S_mulInvBasis in basis_functions[2]",
+     "return [S_mulInvLabel] + " + _K1),
+    (["divInvOp", "divInvKidOp", "divInvTyp", "divInvBasis", "divInvLabel"],
+     "self.op == S_divInvOp and self.children[0].op == S_divInvKidOp and self.children[1].type == sympy.core.numbers.T_divInvTyp "
+     "and S_divInvBasis in basis_functions[2]",
+     "return [S_divInvLabel] + " + _K1),
+    (["unitOp"],
+     "self.op == S_unitOp and (self.children[0].is_unity() or self.children[1].is_unity())",
+     "if self.children[0].is_unity():\n    return %s\nelse:\n    return %s" % (_K1, _K0)),
+    (["absOp", "absParents"],
+     "self.op == S_absOp and self.parent.op in LS_absParents",
+     "return " + _K0),
+    (["passOp"],
+     "self.op == S_passOp and (self.children[0] == 1 or self.children[1] == 1)",
+     "return None"),
+    (["subOp", "subKidOp", "subNegA", "subNegB", "subNegC", "subLabelA", "subLabelB"],
+     "self.op == S_subOp and self.children[1].op == S_subKidOp and "
+     "(self.children[1].children[0].op == S_subNegA or self.children[1].children[1].op == S_subNegB)",
+     "if self.children[1].children[0].op == S_subNegC:\n"
+     "    return [S_subLabelA] + %s + self.children[1].children[1].to_list(basis_functions)\n"
+     "else:\n"
+     "    return [S_subLabelB] + %s + self.children[1].children[0].to_list(basis_functions)" % (_K0, _K0)),
 ]
-
-
-class _Lits(ast.NodeVisitor):
-    """string literals, `str(<int>)`, `sympy.core.numbers.<Cls>` and lists of strings, in source order"""
-    def __init__(self):
-        self.out = []
-
-    def visit_Constant(self, n):
-        if isinstance(n.value, str):
-            self.out.append(n.value)
-
-    def visit_List(self, n):
-        if n.elts and all(isinstance(e, ast.Constant) and isinstance(e.value, str) for e in n.elts) and not isinstance(getattr(n, "ctx", None), ast.Store):
-            if getattr(n, "_in_test", False):
-                self.out.append([e.value for e in n.elts])
-                return
-        self.generic_visit(n)
-
-    def visit_Call(self, n):
-        if isinstance(n.func, ast.Name) and n.func.id == "str" and len(n.args) == 1 and isinstance(n.args[0], ast.Constant) and isinstance(n.args[0].value, int):
-            self.out.append(str(n.args[0].value))
-            return
-        self.generic_visit(n)
-
-    def visit_Attribute(self, n):
-        if ast.unparse(n).startswith("sympy.core.numbers."):
-            self.out.append(n.attr)
-            return
-        self.generic_visit(n)
-
-
-def _literals(test, body):
-    v = _Lits()
-    for n in ast.walk(test):
-        if isinstance(n, ast.List):
-            n._in_test = True
-    v.visit(test)
-    for b in body:
-        v.visit(b)
-    return v.out
+TOLIST_FIELDS = [b[0] for b in TOLIST_BRANCHES]
+TOLIST_ELSE = ["return [self.op] + [V_l for V_c in self.children for V_l in V_c.to_list(basis_functions)]"]
 
 
 def tolist_literals(stage):
-    fn = extract.find_def(extract._parse(stage, GEN), "to_list", "DecoratedNode")
-    ifs = [n for n in fn.body if isinstance(n, ast.If)]
-    if len(ifs) != 1:
-        raise ExtractError("DecoratedNode.to_list: expected exactly one if/elif chain")
-    chain, orelse = _chain(ifs[0])
-    if len(chain) != len(TOLIST_FIELDS):
-        raise ExtractError("DecoratedNode.to_list: %d branches, the model knows %d" % (len(chain), len(TOLIST_FIELDS)))
-    if ast.unparse(chain[0][0]) != "self.degree == 0" or ast.unparse(chain[1][0]) != "self.degree == 1":
-        raise ExtractError("DecoratedNode.to_list: the first two branches are not `self.degree == 0/1`")
+    tree = extract._parse(stage, GEN)
+    fn = nx.rename_comprehension_vars(extract.find_def(tree, "to_list", "DecoratedNode"))
+    a = fn.args
+    if [x.arg for x in a.args] != ["self", "basis_functions"] or a.vararg or a.kwarg or a.kwonlyargs or a.defaults:
+        raise ExtractError("DecoratedNode.to_list: parameters changed")
+    helpers, body = _helpers(tree, "DecoratedNode", fn)
+    where = "DecoratedNode.to_list"
+    out = nx.lift(nx.finish(nx.Exec(helpers, where).block(nx.strip_doc(body), {})))
+    nx.check_kept(out, where, total_attrs=init_attrs(stage))
+    chain, last = nx.chain_of(out)
+    if len(chain) != len(TOLIST_BRANCHES):
+        raise ExtractError("DecoratedNode.to_list: %d branches, the model knows %d" % (len(chain), len(TOLIST_BRANCHES)))
     vals = []
-    for (test, body, ln), fields in zip(chain, TOLIST_FIELDS):
+    for (test, sub), (fields, ptest, pbody) in zip(chain, TOLIST_BRANCHES):
+        ln = _lineno(test)
+        b = nx.match(nx.E(ptest), test)
+        if b is None:
+            raise ExtractError("to_list branch at line %d: test `%s` is not of the shape the model has for this branch (`%s`)" % (
+                ln, nx.src(test)[:200], ptest))
+        b = nx.match(nx.S(pbody), nx.to_stmts(sub), b)
+        if b is None:
+            raise ExtractError("to_list branch at line %d: body `%s` is not of the shape the model has for this branch (`%s`)" % (
+                ln, nx.src(nx.to_stmts(sub))[:300], pbody.replace("\n", " ")))
         if fields is None:
             continue
-        lits = _literals(test, body)
-        if fields == ["passOp"]:
-            # `self.op == "Div" and (self.children[0] == 1 or self.children[1] == 1)`: pass
-            if not (len(body) == 1 and isinstance(body[0], ast.Pass)
-                    and ast.unparse(test).endswith("(self.children[0] == 1 or self.children[1] == 1)")):
-                raise ExtractError("to_list branch at line %d: the `pass` branch changed shape" % ln)
-        if len(lits) != len(fields):
-            raise ExtractError("to_list branch at line %d: %d literals %r, the model expects %d (%s)" % (ln, len(lits), lits, len(fields), ",".join(fields)))
-        for f, v in zip(fields, lits):
-            if f == "absParents":
-                if not isinstance(v, list):
-                    raise ExtractError("to_list branch at line %d: parent list expected" % ln)
-            elif not isinstance(v, str):
-                raise ExtractError("to_list branch at line %d: string literal expected for %s" % (ln, f))
-        vals.append((ln, list(zip(fields, lits))))
+        row = []
+        for f in fields:
+            for pre in ("S_", "T_", "LS_"):
+                if pre + f in b:
+                    row.append((f, b[pre + f]))
+                    break
+            else:
+                raise ExtractError("to_list branch at line %d: literal %s not found" % (ln, f))
+        vals.append((ln, row))
+    if nx.match_any([nx.S(p_) for p_ in TOLIST_ELSE], nx.to_stmts(last)) is None:
+        raise ExtractError("DecoratedNode.to_list: the general branch (`[self.op]` followed by the children's lists) changed shape: `%s`" % (
+            nx.src(nx.to_stmts(last))[:300],))
     return vals
 
 
+# --------------------------------------------------------------------------------------------------------------
+# relabelling pass of fit_from_string / string_to_aifeyn
+# --------------------------------------------------------------------------------------------------------------
+
+P_AK = ["f'a{V_k}'", "'a' + str(V_k)", "'a%d' % V_k", "'a%s' % V_k", "'a{}'.format(V_k)", "'a%d' % (V_k,)", "'a%s' % (V_k,)"]
+P_PARAM_IDX = ("[V_a for V_a, V_b in enumerate(%s) if generator.is_float(V_b) or "
+               "(V_b.startswith('a') and generator.is_float(V_b[1:]))]")
+# negation normal form of `… and not (parents[j] is not None and parents[j].lower() == 'pow')`: the root has no parent
+# (`parents[0] is None`), a root number IS replaced
+P_FLOAT_IDX = ("[V_a for V_a, V_b in enumerate(%s) if (generator.is_float(V_b) and (%s[V_a] is None or %s[V_a].lower() != S_par)) or "
+               "(V_b.startswith('a') and generator.is_float(V_b[1:]))]")
+
+
+def _m(pat, node, what, fn, b=None):
+    r = nx.match(pat, node, b)
+    if r is None:
+        raise ExtractError("%s: %s changed shape: `%s`" % (fn, what, nx.src(node)[:240]))
+    return r
+
+
+def _renumber_loop(st, idx_name, target, fn, what):
+    """`for k, j in enumerate(<idx_name>): <target>[j] = 'a<k>'`"""
+    for pk in P_AK:
+        pat = nx.S("for V_k, V_j in enumerate(%s):\n    %s[V_j] = %s" % (idx_name, target, pk))
+        if nx.match(pat, [st]) is not None:
+            return
+    raise ExtractError("%s: %s changed shape: `%s`" % (fn, what, nx.src(st)[:240]))
+
+
 def _rename_table(fn):
-    """the `for j, lab in enumerate(labels)` renaming loop, the `parents[j].lower() == '<p>'` literal, maxvar default"""
-    loop = None
-    for n in ast.walk(fn):
-        if isinstance(n, ast.For) and ast.unparse(n.iter) == "enumerate(labels)" and len(n.body) == 1 and isinstance(n.body[0], ast.If):
-            loop = n; break
-    if loop is None:
-        raise ExtractError("%s: renaming loop not found" % fn.name)
-    chain, orelse = _chain(loop.body[0])
+    """the statements from `… = generator.string_to_node(…)` to `if replace_floats: …`, one by one"""
+    name = fn.name
+    body = nx.norm_stmts(nx.strip_doc(nx.rename_comprehension_vars(fn).body))
+    k0 = k1 = None
+    for k, st in enumerate(body):
+        if k0 is None and isinstance(st, ast.Assign) and isinstance(st.value, ast.Call) and ast.unparse(st.value.func) in ("generator.string_to_node", "string_to_node"):
+            k0 = k
+        if isinstance(st, ast.If) and ast.unparse(st.test) == "replace_floats":
+            k1 = k
+    if k0 is None or k1 is None or k1 < k0:
+        raise ExtractError("%s: the call of string_to_node / `if replace_floats:` not found" % name)
+    reg = [st for st in body[k0:k1 + 1] if not isinstance(st, ast.Pass)]
+    if len(reg) != 11:
+        raise ExtractError("%s: %d statements between the call of string_to_node and `if replace_floats:`, the model knows 11" % (name, len(reg)))
+    b = _m(nx.S("V_e, V_n, V_c = E_call"), [reg[0]], "the call of string_to_node", name)
+    b = _m(nx.S("V_labels = V_n.to_list(basis_functions)"), [reg[1]], "`labels = nodes.to_list(basis_functions)`", name, b)
+    b = _m(nx.S("V_new = [None] * len(V_labels)"), [reg[2]], "`new_labels = [None] * len(labels)`", name, b)
+    L, N = b["V_labels"], b["V_new"]
+    # the renaming loop
+    where = "%s: renaming loop" % name
+    i, LL, env, out = nx.item_loop_body(reg[3], where)
+    if LL != L or sorted(k for k in env if "[" in k) != sorted(["%s[%s]" % (L, i), "%s[%s]" % (N, i)]):
+        raise ExtractError("%s: renaming loop not found (loop over `%s` assigning %s)" % (name, LL, sorted(k for k in env if "[" in k)))
+    nx.check_kept(out, where, observable=lambda k: "[" in k)
+    ch1, e1 = nx.ifexp_chain(env["%s[%s]" % (L, i)])
+    ch2, e2 = nx.ifexp_chain(env["%s[%s]" % (N, i)])
+    if len(ch1) != len(ch2) or any(nx.key(x[0]) != nx.key(y[0]) or nx.key(x[1]) != nx.key(y[1]) for x, y in zip(ch1, ch2)) or nx.key(e1) != nx.key(e2):
+        raise ExtractError("%s: renaming body changed shape (labels and new_labels are not renamed alike)" % name)
     table = []
-    for test, body, ln in chain:
-        if not (isinstance(test, ast.Compare) and ast.unparse(test.left) == "lab" and isinstance(test.ops[0], ast.Eq)
-                and isinstance(test.comparators[0], ast.Constant) and len(body) == 2):
-            raise ExtractError("%s line %d: renaming test not `lab == '<name>'`" % (fn.name, ln))
-        tg = sorted(ast.unparse(b.targets[0]) for b in body if isinstance(b, ast.Assign))
-        vs = set(b.value.value for b in body if isinstance(b, ast.Assign) and isinstance(b.value, ast.Constant))
-        if tg != ["labels[j]", "new_labels[j]"] or len(vs) != 1:
-            raise ExtractError("%s line %d: renaming body changed shape" % (fn.name, ln))
-        table.append((test.comparators[0].value, vs.pop()))
-    oe = sorted(ast.unparse(b) for b in orelse)
-    if oe != ["labels[j] = lab.lower()", "new_labels[j] = lab.lower()"]:
-        raise ExtractError("%s: the default renaming is not lab.lower()" % fn.name)
-    src = ast.unparse(fn)
-    # the root has no parent (`parents[0] is None`): a root number IS replaced
-    want = ("[j for j, lab in enumerate(labels) if generator.is_float(lab) and (not (parents[j] is not None and parents[j].lower() == '%s')) or "
-            "(lab.startswith('a') and generator.is_float(lab[1:]))]")
-    par = None
-    for n in ast.walk(fn):
-        if isinstance(n, ast.Compare) and ast.unparse(n.left) == "parents[j].lower()" and isinstance(n.comparators[0], ast.Constant):
-            par = n.comparators[0].value
-    if par is None or (want % par) not in src:
-        raise ExtractError("%s: float-replacement comprehension changed shape" % fn.name)
-    if ("[j for j, lab in enumerate(new_labels) if generator.is_float(lab) or (lab.startswith('a') and generator.is_float(lab[1:]))]") not in src:
-        raise ExtractError("%s: parameter-index comprehension changed shape" % fn.name)
+    for test, val in ch1:
+        bb = nx.match(nx.E("%s[%s] == S_k" % (L, i)), test)
+        if bb is None or not (isinstance(val, ast.Constant) and isinstance(val.value, str)):
+            raise ExtractError("%s line %d: renaming test not `lab == '<name>'`" % (name, _lineno(test)))
+        table.append((bb["S_k"], val.value))
+    if nx.match(nx.E("%s[%s].lower()" % (L, i)), e1) is None:
+        raise ExtractError("%s: the default renaming is not lab.lower()" % name)
+    # parameter positions, numbering, parents
+    b2 = _m(nx.S("V_pidx = " + P_PARAM_IDX % N), [reg[4]], "parameter-index comprehension", name)
+    pidx = b2["V_pidx"]
+    _m(nx.S("assert len(%s) <= maxvar" % pidx), [reg[5]], "`assert len(param_idx) <= maxvar`", name)
+    _renumber_loop(reg[6], pidx, N, name, "numbering of new_labels")
+    b3 = _m(nx.S("V_s = generator.labels_to_shape(%s, basis_functions)" % N), [reg[7]], "the call of labels_to_shape", name)
+    b4 = _m(nx.S("V_ok, V_u, V_tree = generator.check_tree(%s)" % b3["V_s"]), [reg[8]], "the call of check_tree", name)
+    b5 = _m(nx.S("V_parents = [None] + [%s[V_p.parent] for V_p in %s[1:]]" % (L, b4["V_tree"])), [reg[9]], "the `parents` list", name)
+    P = b5["V_parents"]
+    if len({L, N, P}) != 3:
+        raise ExtractError("%s: labels / new_labels / parents are not three different names" % name)
+    rf = reg[10]
+    if rf.orelse or len(rf.body) != 2:
+        raise ExtractError("%s: the `if replace_floats:` block changed shape" % name)
+    b6 = _m(nx.S("V_pidx = " + P_FLOAT_IDX % (L, P, P)), [rf.body[0]], "float-replacement comprehension", name)
+    _renumber_loop(rf.body[1], b6["V_pidx"], L, name, "numbering of labels under replace_floats")
+    par = b6["S_par"]
     mv = None
     a = fn.args
     names = [x.arg for x in a.args]
@@ -307,12 +434,16 @@ def rename_tables(stage):
 # --------------------------------------------------------------------------------------------------------------
 
 S2N_PARAMS = ["s", "basis_functions", "locs", "evalf", "allow_eval", "check_ops"]
-TRY_BODY = ("expr[i] = string_to_expr(s, kern=%s, evaluate=%s, locs=locs) | if evalf:     expr[i] = expr[i].evalf() | "
-            "nodes[i] = DecoratedNode(expr[i], basis_functions) | c[i] = nodes[i].count_nodes(basis_functions) | "
-            "if check_ops:     all_in_basis[i] = check_operators(nodes[i], basis_functions)")
-S2N_TAIL = ["if check_ops and any(all_in_basis):     for i in range(len(all_in_basis)):         if not all_in_basis[i]:             c[i] = np.nan",
-            "i = np.nanargmin(c)",
-            "return (expr[i], nodes[i], int(c[i]))"]
+S2N_TRY = ("try:\n"
+           "    {e}[I_k] = string_to_expr(s, kern=B_kern, evaluate=B_ev, locs=locs)\n"
+           "    if evalf:\n"
+           "        {e}[I_k] = {e}[I_k].evalf()\n"
+           "    {n}[I_k] = DecoratedNode({e}[I_k], basis_functions)\n"
+           "    {c}[I_k] = {n}[I_k].count_nodes(basis_functions)\n"
+           "    if check_ops:\n"
+           "        {a}[I_k] = check_operators({n}[I_k], basis_functions)\n"
+           "except Exception:\n"
+           "    {c}[I_k] = np.nan\n")
 
 
 def _flat(n):
@@ -328,26 +459,34 @@ def _bool_kw(call, name, where):
     raise ExtractError("%s: keyword %s missing" % (where, name))
 
 
-def _variant_of_try(tr, where):
-    if not isinstance(tr, ast.Try) or tr.orelse or tr.finalbody or len(tr.handlers) != 1:
-        raise ExtractError("%s: expected a plain try/except" % where)
-    h = tr.handlers[0]
-    if not (h.type is not None and ast.unparse(h.type) == "Exception" and h.name is None and [_flat(b) for b in h.body] == ["c[i] = np.nan"]):
-        raise ExtractError("%s: handler is not `except Exception: c[i] = np.nan`" % where)
-    if not tr.body or not (isinstance(tr.body[0], ast.Assign) and isinstance(tr.body[0].value, ast.Call)
-                           and ast.unparse(tr.body[0].value.func) == "string_to_expr"):
-        raise ExtractError("%s: the try block does not start with `expr[i] = string_to_expr(...)`" % where)
-    call = tr.body[0].value
-    kern, ev = _bool_kw(call, "kern", where), _bool_kw(call, "evaluate", where)
-    got = " | ".join(_flat(b) for b in tr.body)
-    if got != TRY_BODY % (kern, ev):
-        raise ExtractError("%s: try block changed shape: %s" % (where, got[:300]))
-    return kern, ev
+class _SubstName(ast.NodeTransformer):
+    def __init__(self, name, value):
+        self.name, self.value = name, value
+
+    def visit_Name(self, n):
+        if n.id == self.name and isinstance(n.ctx, ast.Load):
+            return ast.Constant(value=self.value)
+        return n
+
+
+def _split_simple_assigns(stmts):
+    """N1 at statement level: `a, b = v, w` with pure right-hand sides that do not read a or b = `a = v; b = w`"""
+    out = []
+    for st in stmts:
+        if (isinstance(st, ast.Assign) and len(st.targets) == 1 and isinstance(st.targets[0], ast.Tuple) and isinstance(st.value, ast.Tuple)
+                and len(st.targets[0].elts) == len(st.value.elts) and all(isinstance(t, ast.Name) for t in st.targets[0].elts)
+                and all(nx.is_pure(v) for v in st.value.elts)
+                and not ({t.id for t in st.targets[0].elts} & {n.id for v in st.value.elts for n in ast.walk(v) if isinstance(n, ast.Name)})):
+            for t, v in zip(st.targets[0].elts, st.value.elts):
+                out.append(ast.copy_location(ast.Assign(targets=[t], value=v), st))
+        else:
+            out.append(st)
+    return out
 
 
 def s2n_skeleton(stage):
-    """-> (variants [(kern, evaluate, guarded)], defaults {evalf, allow_eval, check_ops})"""
-    fn = extract.find_def(extract._parse(stage, GEN), "string_to_node")
+    """-> (variants [(kern, evaluate, guarded, lineno)], defaults {evalf, allow_eval, check_ops})"""
+    fn = nx.rename_comprehension_vars(extract.find_def(extract._parse(stage, GEN), "string_to_node"))
     a = fn.args
     names = [x.arg for x in a.args]
     if names != S2N_PARAMS or a.vararg or a.kwarg or a.kwonlyargs:
@@ -356,88 +495,141 @@ def s2n_skeleton(stage):
     for k in ("evalf", "allow_eval", "check_ops"):
         if not isinstance(defaults.get(k), bool):
             raise ExtractError("string_to_node: default of %s is not a bool" % k)
-    body = list(fn.body)
-    if body and isinstance(body[0], ast.Expr) and isinstance(body[0].value, ast.Constant) and isinstance(body[0].value.value, str):
-        body = body[1:]
-    init = sorted(_flat(b) for b in body[:4])
-    if init != sorted(["expr = [None] * 4", "nodes = [None] * 4", "if check_ops:     all_in_basis = [False] * 4", "c = np.full(4, np.nan)"]):
-        raise ExtractError("string_to_node: initialisation of expr/nodes/all_in_basis/c changed shape: %r" % (init,))
-    tail = [_flat(b) for b in body[-3:]]
-    if tail != S2N_TAIL:
-        raise ExtractError("string_to_node: masking / np.nanargmin / return changed shape: %r" % (tail,))
-    mid = body[4:-3]
+    body = [st for st in _split_simple_assigns(nx.norm_stmts(nx.strip_doc(fn.body))) if not isinstance(st, ast.Pass)]
+    if len(body) < 8:
+        raise ExtractError("string_to_node: too few statements")
+    # initialisation (any order)
+    b = nx.Bind()
+    pats = {"expr": "V_expr = [None] * 4", "nodes": "V_nodes = [None] * 4", "all_in_basis": "if check_ops:\n    V_aib = [False] * 4", "c": "V_c = np.full(4, np.nan)"}
+    left = dict(pats)
+    for st in body[:4]:
+        for k, p_ in list(left.items()):
+            bb = nx.match(nx.S(p_), [st], nx.Bind(b))
+            if bb is not None:
+                b = bb
+                del left[k]
+                break
+    if left:
+        raise ExtractError("string_to_node: initialisation of expr/nodes/all_in_basis/c changed shape: %r" % ([_flat(x) for x in body[:4]],))
+    e_, n_, a_, c_ = b["V_expr"], b["V_nodes"], b["V_aib"], b["V_c"]
+    if len({e_, n_, a_, c_} | set(S2N_PARAMS)) != 4 + len(S2N_PARAMS):
+        raise ExtractError("string_to_node: the four arrays are not four different locals")
+    # masking / np.nanargmin / return
+    mask, pick, ret = body[-3:]
+    tail_err = "string_to_node: masking / np.nanargmin / return changed shape: %r" % ([_flat(x) for x in body[-3:]],)
+    if not (isinstance(mask, ast.If) and not mask.orelse and len(mask.body) == 1
+            and nx.match(nx.E("check_ops and any(%s)" % a_), mask.test) is not None):
+        raise ExtractError(tail_err)
+    i, L, env, out = nx.item_loop_body(mask.body[0], "string_to_node: masking loop")
+    if L != a_ or sorted(k for k in env if "[" in k) != ["%s[%s]" % (c_, i)] or \
+            nx.match(nx.E("%s[%s] if %s[%s] else np.nan" % (c_, i, a_, i)), env["%s[%s]" % (c_, i)]) is None:
+        raise ExtractError(tail_err)
+    bp = nx.match(nx.S("V_best = np.nanargmin(%s)" % c_), [pick])
+    if bp is None or bp["V_best"] in (e_, n_, a_, c_) + tuple(S2N_PARAMS):
+        raise ExtractError(tail_err)
+    if nx.match(nx.S("return ({e}[{i}], {n}[{i}], int({c}[{i}]))".format(e=e_, n=n_, c=c_, i=bp["V_best"])), [ret]) is None:
+        raise ExtractError(tail_err)
+    mid = nx.unroll_literal_loops(body[4:-3], "string_to_node")
     variants = []
+    try_pat = nx.S(S2N_TRY.format(e=e_, n=n_, c=c_, a=a_))
 
-    def take(stmts, guarded):
-        k = 0
-        while k < len(stmts):
-            st = stmts[k]
+    def take(stmts, guarded, cur):
+        for st in stmts:
             if isinstance(st, ast.If) and _flat(st.test) == "allow_eval" and not st.orelse and not guarded:
-                take(st.body, True)
-                k += 1
+                take(st.body, True, cur)
+                cur = None                 # what `i` is after a block that may not have run is not known
                 continue
-            if not (isinstance(st, ast.Assign) and _flat(st.targets[0]) == "i" and isinstance(st.value, ast.Constant)
-                    and isinstance(st.value.value, int) and k + 1 < len(stmts)):
-                raise ExtractError("string_to_node line %d: expected `i = <index>` followed by a try block" % st.lineno)
-            idx = st.value.value
-            if idx != len(variants):
-                raise ExtractError("string_to_node line %d: variant index %d out of sequence (expected %d)" % (st.lineno, idx, len(variants)))
-            kern, ev = _variant_of_try(stmts[k + 1], "string_to_node variant %d (line %d)" % (idx, st.lineno))
-            variants.append((kern, ev, guarded, st.lineno))
-            k += 2
-    take(mid, False)
+            if (isinstance(st, ast.Assign) and len(st.targets) == 1 and isinstance(st.targets[0], ast.Name)
+                    and isinstance(st.value, ast.Constant) and type(st.value.value) is int
+                    and st.targets[0].id not in (e_, n_, a_, c_) + tuple(S2N_PARAMS)):
+                cur = (st.targets[0].id, st.value.value, st.lineno)  # `i = <index>`: read as that constant until re-bound
+                continue
+            if not isinstance(st, ast.Try):
+                raise ExtractError("string_to_node line %d: expected `i = <index>` or a try block, found `%s`" % (st.lineno, _flat(st)[:120]))
+            where = "string_to_node variant %d (line %d)" % (len(variants), st.lineno)
+            tr = st
+            if cur is not None:
+                if any(isinstance(x, ast.Name) and isinstance(x.ctx, ast.Store) and x.id == cur[0] for x in ast.walk(st)):
+                    raise ExtractError("%s: the try block re-binds `%s`" % (where, cur[0]))
+                tr = _SubstName(cur[0], cur[1]).visit(nx.cp(st))
+            bb = nx.match(try_pat, [tr])
+            if bb is None:
+                raise ExtractError("%s: try block changed shape: %s" % (where, _flat(st)[:300]))
+            if bb["I_k"] != len(variants):
+                raise ExtractError("string_to_node line %d: variant index %d out of sequence (expected %d)" % (st.lineno, bb["I_k"], len(variants)))
+            variants.append((bb["B_kern"], bb["B_ev"], guarded, cur[2] if cur is not None else st.lineno))
+        return cur
+    take(mid, False, None)
     if len(variants) != 4:
         raise ExtractError("string_to_node: %d parse variants, the arrays have 4 entries" % len(variants))
     return variants, defaults
 
 
+P_ALL = ["return all([V_a in [V_b for V_c in basis_functions for V_b in V_c] for V_a in %s])",
+         "return all((V_a in [V_b for V_c in basis_functions for V_b in V_c] for V_a in %s))"]
+
+
 def check_operators_rules(stage):
-    """-> (sympy_numerics list as written, [rule], lineno) ; rule = ('rename', label, basis op, new) | ('numeric', new) | ('prefix', p, new)"""
-    fn = extract.find_def(extract._parse(stage, GEN), "check_operators")
-    body = list(fn.body)
-    if body and isinstance(body[0], ast.Expr) and isinstance(body[0].value, ast.Constant) and isinstance(body[0].value.value, str):
-        body = body[1:]
-    if len(body) != 7:
-        raise ExtractError("check_operators: %d statements, the model knows 7" % len(body))
-    a0 = body[0]
-    if not (isinstance(a0, ast.Assign) and _flat(a0.targets[0]) == "sympy_numerics" and isinstance(a0.value, ast.List)
-            and all(isinstance(e, ast.Constant) and isinstance(e.value, str) for e in a0.value.elts)):
+    """-> (sympy_numerics list as written, [rule]) ; rule = ('rename', label, basis op, new, line) | ('numeric', new, line) | ('prefix', p, new, line)"""
+    tree = extract._parse(stage, GEN)
+    fn = nx.rename_comprehension_vars(extract.find_def(tree, "check_operators"))
+    if [x.arg for x in fn.args.args] != ["nodes", "basis_functions"]:
+        raise ExtractError("check_operators: parameters changed")
+    helpers, body = _helpers(tree, None, fn)
+    body = [st for st in nx.strip_doc(body) if not isinstance(st, ast.Pass)]
+    loops = [k for k, st in enumerate(body) if isinstance(st, ast.For)]
+    if len(loops) != 1:
+        raise ExtractError("check_operators: the normalisation loop changed shape (%d loops)" % len(loops))
+    pre, loop, post = body[:loops[0]], body[loops[0]], body[loops[0] + 1:]
+    where = "check_operators"
+    o1 = nx.Exec(helpers, where).block(pre, {})
+    if not isinstance(o1, nx.Fall):
+        raise ExtractError("check_operators: returns before the normalisation loop")
+    i, L, env, out = nx.item_loop_body(loop, "check_operators: normalisation loop", helpers)
+    cell = "%s[%s]" % (L, i)
+    if sorted(k for k in env if "[" in k) != [cell]:
+        raise ExtractError("check_operators: the normalisation loop changed shape (assigns %s)" % sorted(k for k in env if "[" in k))
+    nx.check_kept(out, where, observable=lambda k: "[" in k)
+    if L not in o1.env or nx.match(nx.E("nodes.to_list(basis_functions)"), o1.env[L]) is None:
+        raise ExtractError("check_operators: `labels = nodes.to_list(basis_functions)` not found")
+    # the number-class list: lower-cased by the code, or written in lower case
+    cands = [k for k, v in o1.env.items() if nx.match(nx.E("[V_s.lower() for V_s in LS_num]"), v) is not None]
+    low = True
+    if not cands:
+        cands = [k for k, v in o1.env.items() if nx.match(nx.E("LS_num"), v) is not None]
+        low = False
+    if len(cands) != 1:
         raise ExtractError("check_operators: `sympy_numerics = [<strings>]` not found")
-    numerics = [e.value for e in a0.value.elts]
-    fixed = {1: "sympy_numerics = [s.lower() for s in sympy_numerics]", 2: "labels = nodes.to_list(basis_functions)",
-             4: "flat_basis = [item for sublist in basis_functions for item in sublist]",
-             5: "all_in_basis = all([ll in flat_basis for ll in labels])", 6: "return all_in_basis"}
-    for k, want in fixed.items():
-        if _flat(body[k]) != want:
-            raise ExtractError("check_operators: statement %d is not `%s`" % (k + 1, want))
-    loop = body[3]
-    if not (isinstance(loop, ast.For) and _flat(loop.target) == "i" and _flat(loop.iter) == "range(len(labels))" and not loop.orelse
-            and len(loop.body) == 1 and isinstance(loop.body[0], ast.If)):
-        raise ExtractError("check_operators: the normalisation loop changed shape")
-    chain, orelse = _chain(loop.body[0])
-    if [_flat(b) for b in orelse] != ["labels[i] = labels[i].lower()"]:
+    num = cands[0]
+    numerics = nx.match(nx.E("[V_s.lower() for V_s in LS_num]" if low else "LS_num"), o1.env[num])["LS_num"]
+    if not low and any(x != x.lower() for x in numerics):
+        raise ExtractError("check_operators: sympy_numerics is not lower-cased")
+    chain, orelse = nx.ifexp_chain(env[cell])
+    if nx.match(nx.E("%s.lower()" % cell), orelse) is None:
         raise ExtractError("check_operators: the default normalisation is not labels[i].lower()")
     rules = []
-    for test, bd, ln in chain:
-        if not (len(bd) == 1 and isinstance(bd[0], ast.Assign) and _flat(bd[0].targets[0]) == "labels[i]"
-                and isinstance(bd[0].value, ast.Constant) and isinstance(bd[0].value.value, str)):
+    for test, val in chain:
+        ln = _lineno(test)
+        if not (isinstance(val, ast.Constant) and isinstance(val.value, str)):
             raise ExtractError("check_operators line %d: body is not `labels[i] = '<name>'`" % ln)
-        new = bd[0].value.value
-        t = _flat(test)
-        cj = _conj(test)
-        if (len(cj) == 2 and isinstance(cj[0], ast.Compare) and _flat(cj[0].left) == "labels[i]" and isinstance(cj[0].ops[0], ast.Eq)
-                and isinstance(cj[0].comparators[0], ast.Constant) and isinstance(cj[0].comparators[0].value, str)
-                and isinstance(cj[1], ast.Compare) and isinstance(cj[1].ops[0], ast.In) and isinstance(cj[1].left, ast.Constant)
-                and isinstance(cj[1].left.value, str) and _flat(cj[1].comparators[0]) == "basis_functions[2]"):
-            rules.append(("rename", cj[0].comparators[0].value, cj[1].left.value, new, ln))
-        elif t == "labels[i].lower() in sympy_numerics or is_float(labels[i])":
+        new = val.value
+        b1 = nx.match(nx.E("%s == S_lab and S_op in basis_functions[2]" % cell), test)
+        b2 = nx.match(nx.E("%s.lower() in %s or is_float(%s)" % (cell, num, cell)), test)
+        b3 = nx.match(nx.E("%s.startswith(S_p) and %s[1:].isdigit()" % (cell, cell)), test)
+        if b1 is not None:
+            rules.append(("rename", b1["S_lab"], b1["S_op"], new, ln))
+        elif b2 is not None:
             rules.append(("numeric", new, ln))
-        elif (len(cj) == 2 and isinstance(cj[0], ast.Call) and _flat(cj[0].func) == "labels[i].startswith" and len(cj[0].args) == 1
-              and isinstance(cj[0].args[0], ast.Constant) and isinstance(cj[0].args[0].value, str) and len(cj[0].args[0].value) == 1
-              and _flat(cj[1]) == "labels[i][1:].isdigit()"):
-            rules.append(("prefix", cj[0].args[0].value, new, ln))
+        elif b3 is not None and len(b3["S_p"]) == 1:
+            rules.append(("prefix", b3["S_p"], new, ln))
         else:
-            raise ExtractError("check_operators line %d: test `%s` not modelled" % (ln, t[:200]))
+            raise ExtractError("check_operators line %d: test `%s` not modelled" % (ln, _flat(test)[:200]))
+    env2 = {k: v for k, v in o1.env.items() if k != L}
+    o2 = nx.finish(nx.Exec(helpers, where).block(post, env2))
+    if not isinstance(o2, nx.Ret) or nx.match_any([nx.S(p_ % L) for p_ in P_ALL], nx.to_stmts(o2)) is None:
+        raise ExtractError("check_operators: the membership test in the flattened basis changed shape: `%s`" % (
+            nx.src(nx.to_stmts(o2))[:240] if not isinstance(o2, nx.Br) else "conditional",))
+    nx.check_kept(o2, where)
     return numerics, rules
 
 
@@ -462,6 +654,24 @@ def call_sites(stage, defaults):
     if names != ["fit_from_string", "string_to_aifeyn"] or len(out) != 2:
         raise ExtractError("fit_single.py: string_to_node is called from %r (%d calls); the model knows one call each in fit_from_string and string_to_aifeyn" % (names, len(out)))
     return out
+
+
+def committed_tables(lean_path):
+    """variants and call sites of the table that is on disk (the committed one when the translator fell back): what the
+    executable model was built from -> ([(kern, evaluate, guarded, 0)], [(fn, evalf, allow_eval, check_ops, 0)])"""
+    import re
+    text = open(lean_path).read()
+    tb = {"true": True, "false": False}
+    m = re.search(r"def variants : List Variant := \[(.*?)\n  \]", text, flags=re.S)
+    s = re.search(r"def callSites : List CallSite := \[(.*?)\n  \]", text, flags=re.S)
+    if not m or not s:
+        raise ExtractError("committed ToList table has no variants / callSites")
+    vs = [(tb[x.group(1)], tb[x.group(2)], tb[x.group(3)], 0) for x in re.finditer(r"⟨(true|false), (true|false), (true|false)⟩", m.group(1))]
+    cs = [(x.group(1), tb[x.group(2)], tb[x.group(3)], tb[x.group(4)], 0)
+          for x in re.finditer(r"⟨\"(\w+)\", (true|false), (true|false), (true|false)⟩", s.group(1))]
+    if len(vs) != 4 or len(cs) != 2:
+        raise ExtractError("committed ToList table: %d variants, %d call sites" % (len(vs), len(cs)))
+    return vs, cs
 
 
 def _lb(b):
